@@ -386,6 +386,7 @@ def run_one(seed, i, tier):
                "probes": {k: st[k] for k in ("fault_fired", "fault_in_load", "fault_in_save", "second_thread_ok", "rebind_checked")},
                "faults": {"io_error_or_encoder_error": st["fault_fired"], "corrupt_resource": st["corrupt"], "rejected_input": st["rejected"],
                           "filename_rebind": st["rebind_checked"]}, "stats": {"fault_points": st["fault_points"]}}
+        res["logd"] = digest([jsonable(r["sample"]), sorted(st.items()), r["sigs"]])
         if i % 500 == 0 or r["viol"]:
             res["sample"] = dict(r["sample"], run_index=i)
         if r["viol"]:
@@ -397,6 +398,7 @@ def run_one(seed, i, tier):
     out, v = run_thread_payload(payload)
     res = {"viol": None, "steps": out["steps"], "probes": {"preempt_in_op": out["preempt_in_op"], "lock_contended": out["contended"]},
            "faults": {"preemption": out["switches"]}, "stats": {"ops": len(out["history"])}}
+    res["logd"] = digest(jsonable([payload["progs"], out["choices"], _thr.describe_history(out)]))
     if out["preempt_in_op"]:
         res["sig"] = digest([[[(o["h"], o["name"]) for o in p] for p in payload["progs"]], out["switch_sites"]])
     if i % 499 == 0 or v:
